@@ -51,7 +51,10 @@ func (r *rawRequest) IsValid() (valid bool) {
 		return
 	}
 	for _, v := range b.Array {
-		if v.Type != BulkString {
+		// NOTE: A null bulk string ($-1) isn't a valid argument, a backend
+		// answers it with a protocol error and closes the connection, which
+		// is shared by all the sessions.
+		if v.Type != BulkString || v.Text == nil {
 			return
 		}
 	}
